@@ -37,7 +37,7 @@ func init() {
 			"threads are deterministic functions of what they observed (timestamps are projected out of the observation hash), which is what makes state-key pruning sound",
 			"data-race freedom of a storage backend is not decidable by a cooperative scheduler: it is looked at by a separate free-running -race pass (supporting evidence, sampling of schedules)",
 		},
-		RequiredFloors: []string{"loser:exists", "loser:pending", "both-proceed-sequentially", "three-threads"},
+		RequiredFloors: []string{"loser:exists", "loser:pending", "both-proceed-sequentially", "three-threads", "lock-level"},
 	})
 }
 
@@ -77,6 +77,12 @@ func scenarios(thorough bool) []*gate.Scenario {
 	return out
 }
 
+// set by lock_vsched.go in the instrumented build
+var (
+	lockRun    func(c *core.Ctx)
+	lockReplay func(c *core.Ctx, data json.RawMessage) []core.Violation
+)
+
 type replayData struct {
 	Scenario *gate.Scenario `json:"scenario"`
 	Choices  []int          `json:"choices"`
@@ -86,6 +92,12 @@ type replayData struct {
 func replay(c *core.Ctx, data json.RawMessage) []core.Violation {
 	var rd replayData
 	if err := json.Unmarshal(data, &rd); err != nil {
+		return nil
+	}
+	if rd.Scenario == nil {
+		if lockReplay != nil {
+			return lockReplay(c, data)
+		}
 		return nil
 	}
 	ex, err := gate.Replay(rd.Scenario, rd.Choices)
@@ -98,6 +110,13 @@ func replay(c *core.Ctx, data json.RawMessage) []core.Violation {
 }
 
 func run(c *core.Ctx) {
+	defer func() {
+		if lockRun != nil {
+			lockRun(c)
+		} else {
+			c.NotExhaustive("lock-level part needs the vsched-instrumented build (run through ./run.sh)")
+		}
+	}()
 	deadline := time.Now().Add(10 * time.Minute)
 	if c.Thorough() {
 		deadline = time.Now().Add(100 * time.Minute)
